@@ -1,6 +1,203 @@
--- C12: serialization round trip (theorems follow)
-import Winter.Model.Serde
+-- C12: serialization round trip for every serializable value.
+-- Model: Winter/Model/Serde.lean (byte-level encoders / decoders over the SliceReader semantics, the constructors'
+-- acceptance predicates `wf`, the writers' assertions `wpanic`); helper lemmas: WinterProofs/Lemmas/C12*.lean.
+-- `Codec.RT c` is the property for one type:
+--   ∀ x rest, c.wf x → c.wpanic x = false ∧ c.dec (c.enc x ++ rest) = .ok (x, rest)
+-- (the writer does not panic, the decoded value is equal, exactly the written bytes are consumed, any suffix).
+import WinterProofs.Lemmas.C12Parse
+
 namespace WinterProofs.C12
-open Model Model.Serde
-theorem readU8_cons (b : Nat) (r : Bytes) : readU8 (b :: r) = .ok (b, r) := rfl
+open Model Model.Serde WinterProofs.C12L
+
+-- ------------------------------------------------------------------------------------------------
+-- the variable-length size encoding (write_usize / read_usize / encoded_len)
+
+/-- every `v < 2^64` reads back and exactly the written bytes are consumed -/
+theorem vint64_roundtrip (v : Nat) (rest : Bytes) (hv : v < 18446744073709551616) :
+    readUsize (writeUsize v ++ rest) = .ok (v, rest) :=
+  readUsize_writeUsize v rest hv
+
+/-- the number of bytes written is `encoded_len`, between 1 and 9 -/
+theorem vint64_length (v : Nat) (hv : v < 18446744073709551616) :
+    (writeUsize v).length = encodedLen v ∧ 1 ≤ encodedLen v ∧ encodedLen v ≤ 9 :=
+  ⟨writeUsize_length v hv, encodedLen_range v hv⟩
+
+/-- `encoded_len` (leading zeros, saturating subtraction, division by 7) is the number of 7-bit groups -/
+theorem vint64_encodedLen (v : Nat) :
+    encodedLen v =
+      if v < 128 then 1 else if v < 16384 then 2 else if v < 2097152 then 3 else if v < 268435456 then 4
+      else if v < 34359738368 then 5 else if v < 4398046511104 then 6 else if v < 562949953421312 then 7
+      else if v < 72057594037927936 then 8 else 9 :=
+  encodedLen_eq v
+
+example : writeUsize 16383 = [254, 255] ∧ writeUsize 16384 = [4, 0, 2] := by decide
+example : readUsize (writeUsize 72057594037927936 ++ [7]) = .ok (72057594037927936, [7]) := by decide
+
+-- ------------------------------------------------------------------------------------------------
+-- fixed-width integers, composition
+
+/-- u8 / u16 / u32 / u64 / u128 (`n` = 1, 2, 4, 8, 16 little-endian bytes) -/
+theorem uint_roundtrip (n v : Nat) (rest : Bytes) (hv : v < 256 ^ n) :
+    readUInt n (leBytes n v ++ rest) = .ok (v, rest) :=
+  readUInt_leBytes hv rest
+
+example : readUInt 2 (leBytes 2 65535 ++ [1]) = .ok (65535, [1]) := by decide
+
+/-- composition of sequenced decoders: when the first decoder gives `x` on the first block and leaves the
+    rest, and the continuation gives `y` on what is left, the sequence gives `y`; larger types are
+    assembled from their parts with this lemma -/
+theorem seq_roundtrip {d : Dec α} {f : α → Dec β} {e1 e2 rest : Bytes} {x : α} {y : β}
+    (h1 : d (e1 ++ (e2 ++ rest)) = .ok (x, e2 ++ rest)) (h2 : f x (e2 ++ rest) = .ok (y, rest)) :
+    (d >>= f) (e1 ++ e2 ++ rest) = .ok (y, rest) := by
+  rw [List.append_assoc]; exact bind_ok h1 h2
+
+/-- tuples and structs of sequenced fields -/
+theorem pair_roundtrip {a : Codec α} {b : Codec β} (ha : a.RT) (hb : b.RT) : (pair a b).RT := pair_RT ha hb
+
+theorem option_roundtrip {c : Codec α} (h : c.RT) : (option c).RT := option_RT h
+
+/-- `Vec<T>` / `[T]`: vint64 length prefix -/
+theorem vec_roundtrip {c : Codec α} (h : c.RT) : (vec c).RT := vec_RT h
+
+/-- `[T; N]` -/
+theorem array_roundtrip (n : Nat) {c : Codec α} (h : c.RT) : (array n c).RT := array_RT n h
+
+/-- `String`: any valid UTF-8 byte sequence -/
+theorem string_roundtrip : str.RT := str_RT
+
+example : str.wf [240, 159, 152, 128, 97] = true := by decide
+
+/-- `BTreeMap<K, V>` as a strictly increasing list of entries, for any key order with `a < b → b > a` -/
+theorem btreeMap_roundtrip {cmp : κ → κ → Ordering} (hc : Antisym cmp) {k : Codec κ} {v : Codec ν}
+    (hk : k.RT) (hv : v.RT) : (btreeMap cmp k v).RT := btreeMap_RT hc hk hv
+
+theorem btreeSet_roundtrip {cmp : κ → κ → Ordering} (hc : Antisym cmp) {k : Codec κ} (hk : k.RT) :
+    (btreeSet cmp k).RT := btreeSet_RT hc hk
+
+example : (btreeMap natCmp (uint 1) (uint 2)).wf [(1, 500), (2, 0), (255, 65535)] = true := by decide
+
+-- ------------------------------------------------------------------------------------------------
+-- field elements and digests
+
+/-- base field elements (the value of an element is its canonical integer `< M`) -/
+theorem elem_roundtrip (f : Fld) : (elem f.impl).RT := elem_RT f.impl f.fits
+
+/-- the element decoder is `FieldImpl.readFrom` of Winter/Model/Field.lean, seen on canonical integers -/
+theorem elem_dec_readFrom (F : FieldImpl) (bs : Bytes) :
+    (elem F).dec bs =
+      match F.readFrom bs with
+      | none => .eof
+      | some (.err, _) => .err
+      | some (.ok _, rest) => .ok (ofLeBytes (bs.take F.bytes), rest) := by
+  simp only [elem, FieldImpl.readFrom, FieldImpl.tryFrom, bind_apply, readUInt, readSlice_eq]
+  by_cases h : bs.length < F.bytes
+  · simp [h]
+  · by_cases h2 : ofLeBytes (bs.take F.bytes) ≥ F.M <;> simp [h, h2]
+
+/-- the element encoder is `FieldImpl.toBytes` -/
+theorem elem_enc_toBytes (F : FieldImpl) (raw : Nat) : F.toBytes raw = (elem F).enc (F.asInt raw) := rfl
+
+/-- quadratic and cubic extension elements, coordinate by coordinate -/
+theorem quad_roundtrip (f : Fld) : (quad f.impl).RT := (Ty.quad f).rt
+theorem cube_roundtrip (f : Fld) : (cube f.impl).RT := (Ty.cube f).rt
+
+/-- `ByteDigest<N>` (Blake3, SHA3) and the `ElementDigest` of Rp64_256 / RpJive64_256 -/
+theorem byteDigest_roundtrip (n : Nat) : (byteDigest n).RT := byteDigest_RT n
+theorem elemDigest64_roundtrip : elemDigest64.RT := elemDigest64_RT
+
+-- ------------------------------------------------------------------------------------------------
+-- every serializable type, nested compositions included
+
+/-- C12 for the whole universe `Ty` of serializable types (integers, usize, bool, String, Option, Vec, arrays,
+    tuples, BTreeMap / BTreeSet over ordered keys, base / quadratic / cubic field elements, digests,
+    FieldExtension, ProofOptions, TraceInfo, Context, Commitments, Queries, OodFrame, FriProofLayer, FriProof,
+    Proof) and all their nestings: every value the constructors accept is encoded without a panic and decodes
+    to an equal value, consuming exactly the written bytes, whatever follows. -/
+theorem roundtrip_all (t : Ty) (x : t.val) (rest : Bytes) (hx : t.codec.wf x = true) :
+    t.codec.wpanic x = false ∧ t.codec.dec (t.codec.enc x ++ rest) = .ok (x, rest) :=
+  t.rt x rest hx
+
+theorem proofOptions_roundtrip : proofOptions.RT := proofOptions_RT
+theorem traceInfo_roundtrip : traceInfo.RT := traceInfo_RT
+theorem context_roundtrip : context.RT := context_RT
+theorem queries_roundtrip : queries.RT := queries_RT
+theorem oodFrame_roundtrip : oodFrame.RT := oodFrame_RT
+theorem friLayer_roundtrip : friLayer.RT := friLayer_RT
+theorem friProof_roundtrip : friProof.RT := friProof_RT
+theorem proof_roundtrip : proof.RT := proof_RT
+
+-- the boundary members the constructors accept (255 columns split 254 + 1 with no random elements,
+-- 2^63 rows, 255 queries, remainder degree 255, blowup 128)
+example : traceInfo.wf ⟨254, 1, 0, 9223372036854775808, [1, 2, 3]⟩ = true := by decide
+example : traceInfo.wf ⟨255, 0, 0, 8, []⟩ = true := by decide
+example : proofOptions.wf ⟨255, 128, 32, 3, 16, 255⟩ = true := by decide
+example : context.wf ⟨⟨255, 0, 0, 8, []⟩, leBytes 8 F64.impl.M, ⟨255, 128, 32, 3, 16, 255⟩⟩ = true := by decide
+example : traceInfo.dec (traceInfo.enc ⟨254, 1, 0, 8, [7]⟩ ++ [9]) = .ok (⟨254, 1, 0, 8, [7]⟩, [9]) := by decide
+
+-- ------------------------------------------------------------------------------------------------
+-- constructors and the types' own parse steps
+
+/-- `Queries::new` then `Queries::parse` (`Table::from_bytes`, `BatchMerkleProof::deserialize`) with up to
+    255 queries of up to 255 values gives back the query values and the Merkle nodes -/
+theorem queries_parse_roundtrip {e : Codec ε} {d : Codec δ} (he : e.RT) (hd : d.RT) (eb : Nat)
+    (hlen : ∀ x, e.wf x = true → (e.enc x).length = eb)
+    (nodes : List (List δ)) (values : List (List ε)) (q : Queries)
+    (hq : queriesNew e d nodes values = some q)
+    (hv : ∀ row ∈ values, row.all e.wf = true) (hn : ∀ v ∈ nodes, v.all d.wf = true)
+    (depth : Nat) (hdepth : depth ≠ 0) (hrows : values.length ≤ 255) (hcols : (values.headD []).length ≤ 255) :
+    queriesParse e eb d q depth values.length (values.headD []).length = .ok (values, nodes) :=
+  queriesParse_new he hd eb hlen nodes values q hq hv hn depth hdepth hrows hcols
+
+example : (queriesNew (elem F64.impl) (byteDigest 2) [[[1, 2]], []] [[5, 6], [7, 8]]).isSome = true := by decide
+
+/-- what `Queries::new` builds is a value of the serialized type (below 4 GiB) -/
+theorem queriesNew_wf {e : Codec ε} {d : Codec δ} (nodes : List (List δ)) (values : List (List ε)) (q : Queries)
+    (_hq : queriesNew e d nodes values = some q)
+    (hsmall : q.values.length < 4294967296 ∧ q.paths.length < 4294967296) : queries.wf q = true := by
+  simp [queries, hsmall.1, hsmall.2]
+
+-- ------------------------------------------------------------------------------------------------
+-- Commitments: the constructor accepts what the writer refuses (recorded in known_findings.json,
+-- site commitments.encode.panic)
+
+/-- full statement for `Commitments`: whatever digests `Commitments::new` is given, the result can be encoded -/
+def CommitmentsEncodable : Prop :=
+  ∀ (trace : List Bytes) (c : Bytes) (fri : List Bytes),
+    (trace.all (byteDigest 32).wf && (byteDigest 32).wf c && fri.all (byteDigest 32).wf) = true →
+    commitments.wpanic (commitmentsNew (byteDigest 32) trace c fri) = false
+
+/-- witness: a constraint root and 2047 FRI roots of 32 bytes are 65536 bytes, `write_into` asserts -/
+theorem commitments_encode_fails : ¬ CommitmentsEncodable := by
+  intro h
+  -- `n` FRI roots `d` of 32 bytes each
+  have key : ∀ (n : Nat) (d : Bytes), d.length = 32 → 65535 ≤ 32 + n * 32 →
+      commitments.wpanic (commitmentsNew (byteDigest 32) [] d (List.replicate n d)) = true := by
+    intro n d hd hn
+    have hl := length_encMany (c := byteDigest 32) (L := 32) (List.replicate n d)
+      (by intro x hx; rw [List.eq_of_mem_replicate hx]; exact hd)
+    rw [List.length_replicate] at hl
+    simp only [commitments, commitmentsNew, encMany, byteDigest, List.nil_append, List.length_append, hd,
+      decide_eq_true_eq] at hl ⊢
+    omega
+  have hall : ∀ (n : Nat) (d : Bytes), d.length = 32 →
+      ((([] : List Bytes).all (byteDigest 32).wf && (byteDigest 32).wf d &&
+        (List.replicate n d).all (byteDigest 32).wf) = true) := by
+    intro n d hd
+    have : (List.replicate n d).all (byteDigest 32).wf = true := by
+      apply List.all_eq_true.mpr
+      intro x hx
+      rw [List.eq_of_mem_replicate hx]; simp [byteDigest, hd]
+    simp [byteDigest, hd, this]
+  have hd : (List.replicate 32 0 : Bytes).length = 32 := List.length_replicate ..
+  have h1 := h [] (List.replicate 32 0) (List.replicate 2047 (List.replicate 32 0)) (hall 2047 _ hd)
+  have h2 := key 2047 (List.replicate 32 0) hd (by decide)
+  rw [h1] at h2
+  cases h2
+
+/-- the proved part: below 65535 bytes of digests the value round-trips (missing for the full statement: the
+    constructor does not bound the number of digests) -/
+theorem commitments_roundtrip_partial : commitments.RT := commitments_RT
+
+example : commitments.wf (commitmentsNew (byteDigest 2) [[1, 2]] [3, 4] [[5, 6], [7, 8]]) = true := by decide
+
 end WinterProofs.C12
